@@ -1169,6 +1169,21 @@ pub fn current_task_id() -> usize {
     }
 }
 
+/// Task id for a futures call on handle slot `slot`: the managed thread's id,
+/// or, in sequential mode, an id that tells the waiter apart (100+slot for a
+/// stream poll, 200+slot for a sink call) so that a notification can be
+/// attributed to the task that is waiting for it.
+pub fn task_id_for(sink: bool, slot: u8) -> usize {
+    let me = tid();
+    if me < MAXT {
+        me
+    } else if sink {
+        200 + slot as usize
+    } else {
+        100 + slot as usize
+    }
+}
+
 pub fn take_seq_notifies() -> Vec<usize> {
     std::mem::take(&mut sched().lock().seq_notifies)
 }
